@@ -228,7 +228,7 @@ func executeInproc(c Case, keepTrace bool) Result {
 		}
 		rep := srv.handle(req)
 		res.Handled++
-		tr.Add("msg %d %s %s (%d,%d) -> crashed=%v result=%s notifs=%s", i+1, m.Kind, m.URI, m.Line, m.Char, rep.crashed, core.Truncate(canonJSON(rep.result), 300), core.Truncate(notifCanon(rep.notifs), 300))
+		tr.Add("msg %d %s %s (%d,%d) -> crashed=%v result=%s notifs=%s", i+1, m.Kind, m.URI, m.Line, m.Char, rep.crashed, core.Truncate(answerCanon(m.Kind, rep.result), 300), core.Truncate(notifCanon(rep.notifs), 300))
 		if v := checkReply(m, rep, latest, spans, updates, &res); v != nil {
 			v.Detail = fmt.Sprintf("message %d of %d: %s", i+1, len(c.Msgs), v.Detail)
 			res.Violation = v
